@@ -234,62 +234,7 @@ def run(ctx):
     else:
         r4.fail(fsb.qualname, "append", fsb.file, fsb.lineno, "_Simu.Save_Iter", f"unexpected history append(s): {[norm_text(a) for a in appends]}")
 
-    # R15.5 pickle tuple order by provenance
-    r5 = ctx.rule("R15.5", "Mesh.Save and Load_Mesh agree on the order of the pickled tuples (positions mapped to the parameters of _Set_partitioned_data)", min_instances=2)
-    ge = repo.cls(GE)
-    fset = ge.methods["_Set_partitioned_data"]
-    stored_tuple = None
-    for n in ast.walk(fset.node):
-        if isinstance(n, ast.Assign) and isinstance(n.value, ast.Tuple) and any("partitionned_data" in norm_text(t) for t in n.targets):
-            stored_tuple = [norm_text(e) for e in n.value.elts]
-    if stored_tuple is None:
-        raise AnalysisError("R15.5: _Set_partitioned_data no longer stores a tuple")
-    params = fset.params()
-    fsave = repo.method(f"{MESH}.Mesh", "Save")
-    fload = repo.func(f"{MESH}.Load_Mesh")
-    r5.instance(fn=fsave.qualname)
-    Ls, Ll = Locals(fsave.node), Locals(fload.node)
-    unpack = None
-    for n in ast.walk(fsave.node):
-        if isinstance(n, ast.Assign) and isinstance(n.targets[0], ast.Tuple) and isinstance(n.value, ast.Call) and (dotted(n.value.func) or "").endswith("_Get_partitioned_data"):
-            unpack = [norm_text(e) for e in n.targets[0].elts]
-    packed = None
-    outer = None
-    for n in ast.walk(fsave.node):
-        if isinstance(n, ast.Assign) and isinstance(n.targets[0], ast.Subscript) and isinstance(Ls.resolve(n.value), ast.Tuple) and len(Ls.resolve(n.value).elts) == 3:
-            tup = Ls.resolve(n.value)
-            outer = [norm_text(e) for e in tup.elts]
-            inner = Ls.resolve(tup.elts[1])
-            if isinstance(inner, ast.Tuple):
-                packed = [norm_text(e) for e in inner.elts]
-    loaded = None
-    kw = None
-    datavar = None
-    for n in ast.walk(fload.node):
-        if isinstance(n, ast.Assign) and isinstance(n.targets[0], ast.Tuple) and len(n.targets[0].elts) == 4 and isinstance(n.value, ast.Subscript) and isinstance(n.value.value, ast.Name) and isinstance(n.value.slice, ast.Constant) and n.value.slice.value == 1:
-            loaded = [norm_text(e) for e in n.targets[0].elts]
-            datavar = n.value.value.id
-        if isinstance(n, ast.Call) and (dotted(n.func) or "").endswith("_Set_partitioned_data"):
-            kw = {norm_text(k.value): k.arg for k in n.keywords}
-    if not (unpack and packed and loaded and kw):
-        r5.fail(fsave.qualname, "shape", fsave.file, fsave.lineno, "Mesh.Save", "Save / Load_Mesh no longer have the (unpack, pack, unpack, keyword call) structure")
-    else:
-        if len(unpack) != len(stored_tuple):
-            r5.fail(fsave.qualname, "arity", fsave.file, fsave.lineno, "Mesh.Save", f"unpacks {len(unpack)} values from _Get_partitioned_data() which holds {len(stored_tuple)}")
-        else:
-            name_to_param = {u: s for u, s in zip(unpack, stored_tuple)}
-            q_save = [name_to_param.get(p) for p in packed]
-            q_load = [kw.get(m) for m in loaded]
-            if q_save == q_load and None not in q_save:
-                r5.ok(f"positions map to parameters {q_save} on both sides")
-            else:
-                r5.fail(fload.qualname, "order", fload.file, fload.lineno, "Load_Mesh", f"Save pickles the partition data in the order {q_save} but Load_Mesh hands them to _Set_partitioned_data as {q_load}")
-    r5.instance(fn=fload.qualname)
-    uses = sorted({n.slice.value for n in ast.walk(fload.node) if isinstance(n, ast.Subscript) and isinstance(n.value, ast.Name) and n.value.id == datavar and isinstance(n.slice, ast.Constant)}) if datavar else []
-    if outer and len(outer) == 3 and uses == [0, 1, 2]:
-        r5.ok(f"outer tuple {outer} read at positions 0, 1, 2")
-    else:
-        r5.fail(fload.qualname, "outer", fload.file, fload.lineno, "Load_Mesh", f"outer tuple {outer} vs reads {uses}")
+    mesh_roundtrip_rule(ctx)
 
     # R15.6
     r6 = ctx.rule("R15.6", "every Result override restores the requested iteration before computing", min_instances=7)
@@ -374,3 +319,130 @@ def run(ctx):
     from . import c14
 
     c14.staggered_flags_rule(ctx, simu)
+
+
+
+def mesh_roundtrip_rule(ctx, rid="R15.5"):
+    """R15.5: Load_Mesh(Mesh.Save(mesh)) on recorder stubs: the loaded mesh is built from the same element groups in the
+    same order (element-indexed arrays follow the order of the groups), each with its own connectivity, the coordinates,
+    its partition data handed to _Set_partitioned_data under the right names, and its node tags."""
+    from types import SimpleNamespace
+
+    from ..xarray import Lbl
+    from ..xeval import Interp, XObj, Opaque, Sink, EnumVal, XRaise, _Bound
+    from ..repo import ClassInfo, FuncInfo
+
+    repo = ctx.repo
+    r5 = ctx.rule(rid, "Load_Mesh(Mesh.Save(mesh)): same element groups in the same order, each with its connectivity, the coordinates, its partition data (elements, nodes, rank, ghostElements by name) and its node tags", min_instances=2)
+    mcls = repo.cls(f"{MESH}.Mesh")
+    fsave = mcls.methods["Save"]
+    fload = repo.func(f"{MESH}.Load_Mesh")
+    ge = repo.cls(GE)
+    fset = ge.methods["_Set_partitioned_data"]
+    stored = None
+    for n in ast.walk(fset.node):
+        if isinstance(n, ast.Assign) and isinstance(n.value, ast.Tuple) and any("partitionned_data" in norm_text(t) or "partitioned_data" in norm_text(t) for t in n.targets):
+            stored = [norm_text(e) for e in n.value.elts]
+    if stored is None:
+        raise AnalysisError("R15.5: _Set_partitioned_data no longer stores a tuple")
+    et = repo.cls("EasyFEA.FEM._utils.ElemType")
+    mem = repo.enum_members(et.qualname)
+    types = [EnumVal(et, "QUAD4", mem["QUAD4"]), EnumVal(et, "TRI3", mem["TRI3"]), EnumVal(et, "SEG2", mem["SEG2"])]
+
+    def group(k):
+        pdata = tuple(Lbl("part", k, nm) for nm in stored)
+        return SimpleNamespace(elemType=types[k], connect=Lbl("connect", k), _Get_partitioned_data=lambda pdata=pdata: pdata, _dict_nodes_tags={f"tag{k}": Lbl("tagnodes", k)}, dim=2 if k < 2 else 1)
+
+    groups = [group(k) for k in range(3)]
+    dge = {types[k]: groups[k] for k in range(3)}
+    mesh = XObj(mcls, dict(coord=Lbl("coord"), dict_groupElem=dge, dim=2,
+                           Get_list_groupElem=lambda dim=None: [g for g in reversed(groups) if dim is None or g.dim == dim]))
+    cap = {}
+
+    def hook(fn, args, kwargs):
+        tag = getattr(fn, "tag", "") if isinstance(fn, Opaque) else ""
+        if tag.endswith("pickle.dump"):
+            cap["dumped"] = args[0]
+            return None
+        if tag.endswith("pickle.load"):
+            return cap["dumped"]
+        if isinstance(fn, (_Bound, FuncInfo)):
+            fi = fn.finfo if isinstance(fn, _Bound) else fn
+            if fi.module.name.endswith(".Terminal"):
+                return None
+            if fi.name == "Join":
+                return "path/mesh.pickle"
+            if fi.name == "Exists":
+                return True
+            if fi.name == "Create":
+                rec = SimpleNamespace(created=dict(kwargs) if kwargs else dict(zip(("elemType", "connect", "coordinates"), args)), part=None, tags=[])
+                rec._Set_partitioned_data = lambda *a, rec=rec, **k: setattr(rec, "part", (a, k))
+                rec.Set_Tag = lambda nodes, tag, rec=rec: rec.tags.append((nodes, tag))
+                cap.setdefault("created", []).append(rec)
+                return rec
+        if isinstance(fn, ClassInfo) and fn is mcls:
+            cap["mesh_args"] = (args, kwargs)
+            return Opaque("mesh")
+        return NotImplemented
+
+    r5.instance(fn=fsave.qualname)
+    I = Interp(repo, extra_builtins={"MPI_SIZE": 1, "MPI_RANK": 0, "open": lambda *a, **k: Sink()})
+    I.call_hook = hook
+    from ..repo import ModuleInfo as _MI
+
+    path_const = lambda obj, attr: "/easyfea" if isinstance(obj, _MI) and attr.isupper() and attr.endswith("DIR") else NotImplemented
+    I.attr_hook = path_const
+    try:
+        I.call_function(fsave, ["folder"], self_obj=mesh)
+    except XRaise as e:
+        r5.fail(fsave.qualname, "save", fsave.file, fsave.lineno, "Mesh.Save", f"raises {e}")
+        return
+    if "dumped" not in cap:
+        r5.fail(fsave.qualname, "save", fsave.file, fsave.lineno, "Mesh.Save", "nothing is pickled")
+        return
+    r5.ok("Mesh.Save pickles one record per element group")
+    r5.instance(fn=fload.qualname)
+    I2 = Interp(repo, extra_builtins={"MPI_SIZE": 1, "MPI_RANK": 0, "open": lambda *a, **k: Sink()})
+    I2.call_hook = hook
+    I2.attr_hook = path_const
+    try:
+        I2.call_function(fload, ["path/mesh.pickle"])
+    except XRaise as e:
+        r5.fail(fload.qualname, "load", fload.file, fload.lineno, "Load_Mesh", f"raises {e}")
+        return
+    problems = []
+    margs = cap.get("mesh_args")
+    loaded = None
+    if margs is not None:
+        loaded = margs[1].get("dict_groupElem", margs[0][0] if margs[0] else None)
+    if not isinstance(loaded, dict):
+        problems.append(("mesh", "the loaded groups are not handed to Mesh(dict_groupElem=...)"))
+    else:
+        order = [k.name for k in loaded]
+        if order != [t.name for t in types]:
+            problems.append(("group-order", f"the element groups come back in the order {order}, they were {[t.name for t in types]}: arrays indexed by element (results per element, tags) follow Get_list_groupElem, which is the reversed insertion order within a dimension - a round trip permutes them"))
+        for k, t in enumerate(types):
+            rec = loaded.get(t)
+            if rec is None or not hasattr(rec, "created"):
+                problems.append((f"group:{t.name}", f"group {t.name} is missing after the round trip"))
+                continue
+            c = rec.created
+            if c.get("connect") != Lbl("connect", k) or c.get("coordinates") != Lbl("coord") or not (isinstance(c.get("elemType"), EnumVal) and c["elemType"].name == t.name):
+                problems.append((f"create:{t.name}", f"group {t.name} is re-created from {c!r}"))
+            if rec.part is None:
+                problems.append((f"partition:{t.name}", f"group {t.name}: the partition data are not restored"))
+            else:
+                a, kw = rec.part
+                params = [p for p in fset.params() if p != "self"]
+                given = dict(zip(params, a))
+                given.update(kw)
+                for nm in ("elements", "nodes", "rank", "ghostElements"):
+                    if given.get(nm) != Lbl("part", k, nm):
+                        problems.append((f"partition:{nm}", f"group {t.name}: _Set_partitioned_data receives {nm}={given.get(nm)!r}, the saved {nm} is {Lbl('part', k, nm)!r}"))
+            if rec.tags != [(Lbl("tagnodes", k), f"tag{k}")]:
+                problems.append((f"tags:{t.name}", f"group {t.name}: tags restored as {rec.tags!r}"))
+    if problems:
+        for key, msg in problems[:4]:
+            r5.fail(fload.qualname, key, fload.file, fload.lineno, "Load_Mesh", msg)
+    else:
+        r5.ok("round trip: groups, order, connectivity, coordinates, partition data and tags come back")
